@@ -21,7 +21,7 @@ RULE = (
     "Oracle: (i) no message leaves the broker's waiting/delayed storage towards a NORMAL consumer earlier than T - 1 ms (take "
     "instant read from the broker side); (ii) 1 ms before T the broker-side place is 'delayed' only; (iii) delivery within L "
     "after max(T, listen start) (in-memory 2.5 s, Redis 3 s, RabbitMQ 1 s, + 20x max network latency); far-future messages "
-    "are never delivered. non-trivial = a message with 0 < d < 30 s was delivered; distinct = interleaving digest."
+    "are never delivered. Also: 3-25 delayed messages of another topic due before the own ones, with a topic-filtering consumer (in-memory, Redis). non-trivial = a message with 0 < d < 30 s was delivered; distinct = interleaving digest."
 )
 SHRINK_LISTS = ("msgs",)
 ASSUMPTIONS = ["RabbitMQ per-message TTL expires only at the queue head (documented RabbitMQ behaviour, DESIGN 4.2)"]
@@ -61,8 +61,17 @@ def gen(rng, broker, tier):
             d = rng.randint(1, d)
         msgs.append({"id": f"m{i}", "delay_us": d, "via": rng.choice(["job", "params", "params-recurring"]), "prio": rng.choice(prios),
                      "at_us": rng.choice([0, 0, rng.randint(0, 2_000_000)])})
+    foreign = 0
+    if broker != "rabbit" and rng.random() < 0.25:
+        # (not on RabbitMQ, whose topic-filtering consumers bounce foreign deliveries by design)
+        # the queue is shared with another service whose consumer is away: its delayed messages, due earlier than ours, pile up
+        # in front of ours; our consumer (which filters by topic) must still get ours on time
+        foreign = rng.choice([3, 9, 10, 11, 12, 25])
+        for m in msgs:
+            m["prio"] = 5
     return {"msgs": msgs, "consumer_start_us": rng.choice([0, 0, rng.randint(0, 3_000_000), rng.randint(0, 15_000_000)]),
-            "observer": rng.random() < 0.25, "observer_at_us": rng.randint(0, 3_000_000), "patient": rng.random() < 0.5,
+            "foreign": foreign,
+            "observer": rng.random() < 0.25 and not foreign, "observer_at_us": rng.randint(0, 3_000_000), "patient": rng.random() < 0.5,
             "knobs": {"step_cost": rng.choice([0, 0, 1, "rand"]),
                       "net": {"lat_lo": 50, "lat_hi": rng.choice([300, 3000]), "frag_p": rng.choice([0, 0.1])},
                       "mem_update_delayed": 1.0, "tz": rng.choice([None, None, "Asia/Tokyo", "America/Phoenix"])}}
@@ -94,6 +103,12 @@ async def _main(sim, sc, out):
 
     async def produce():
         conn = world.conn("p")
+        for i in range(sc.get("foreign", 0)):
+            key = RoutingKey(id_=f"f{i}", topic="other", queue="q", priority=5)
+            await conn.message_broker.enqueue(key, "{}", Parameters(
+                delay=DelayProperties(next_execution_time=sim.clock.now() + timedelta(microseconds=500 + 100 * i)),
+                timestamp=sim.clock.now()))
+            sim.count("foreign-topic-delayed-message-in-front")
         for m in sorted(sc["msgs"], key=lambda x: x["at_us"]):
             wait = t0 + m["at_us"] - sim.clock.us
             if wait > 0:
@@ -133,7 +148,8 @@ async def _main(sim, sc, out):
     async def consumer():
         await asyncio.sleep(sc["consumer_start_us"] / 1e6)
         mb = world.conn("c").message_broker
-        cons = mb.get_consumer("q", None, 100)
+        my_topics = ["t"] if sc.get("foreign") else None
+        cons = mb.get_consumer("q", my_topics, 100)
         await cons.start()
         listen_from[0] = sim.clock.us
         while sim.clock.us < horizon:
@@ -143,7 +159,7 @@ async def _main(sim, sc, out):
             res = await consume_with_timeout(cons, left if sc.get("patient", False) else min(2.0, left))
             if res is None:
                 await cons.finish()
-                cons = mb.get_consumer("q", None, 100)
+                cons = mb.get_consumer("q", my_topics, 100)
                 await cons.start()
                 continue
             key, payload, params = res
